@@ -22,6 +22,10 @@ try:
 finally:
     sh(f"git -C /repo worktree remove --force {wt}")
 res = {}
+# evidence files must describe the unchanged tree: keep them aside while checks run on the seeded one
+bak = tempfile.mkdtemp(prefix="evbak-")
+for f in os.listdir("/verif/evidence"):
+    shutil.copy2(os.path.join("/verif/evidence", f), bak)
 ap = sh(f"git -C /repo apply {seed}/patch.diff"); assert ap.returncode == 0, ap.stdout
 try:
     for pid in pids:
@@ -36,5 +40,8 @@ try:
                 print("   ", json.dumps({k: j[k] for k in j if k in ("kind","clause","failure","first_divergence","proof_problems")})[:700])
 finally:
     print(sh("git -C /repo checkout -- . && git -C /repo status --porcelain").stdout)
+    for f in os.listdir(bak):
+        shutil.copy2(os.path.join(bak, f), "/verif/evidence")
+    shutil.rmtree(bak)
 json.dump({"suite": t.stdout.strip(), "demo_original_rc": base_rc, "demo_changed_rc": mut_rc, "checks": res},
           open(os.path.join(seed, "last_run.json"), "w"), indent=1)
